@@ -22,6 +22,7 @@ CONSTANTS Times, BlockNums,                   \* block timestamps / block number
           TsOpts, ExpOpts, LogOpts,           \* registration timestamps, expiry blocks, log blocks (may contain Nil)
           MemberOpts, ActOpts,                \* sequences of <<_, _>> pairs
           UniIdx, DesignedIdx, PickOne,       \* sequences of naturals: seeded universe numbers; which designed universes
+          UseNI, UseNT, MaxGen,               \* slots used / generations allowed in seeded and in designed universes 1..5
           Emit, EMod, EPhase, NMod, NPhase
 
 VARIABLES ui, st, gh, out, last, hist
@@ -32,16 +33,18 @@ IdOpts == SetToSortSeq({[set |-> s, ts |-> t] : s \in Sets, t \in TsOpts},
 TrOpts == SetToSortSeq({[set |-> s, exp |-> e, log |-> g] : s \in Sets, e \in ExpOpts, g \in LogOpts},
                        LAMBDA a, b : a.set < b.set \/ (a.set = b.set /\ (a.exp < b.exp \/ (a.exp = b.exp /\ a.log < b.log))))
 
-Radices == <<Len(MemberOpts), Len(ActOpts)>> \o [i \in 1..NI |-> Len(IdOpts)] \o [j \in 1..NT |-> Len(TrOpts)]
+NoId == [set |-> 0, ts |-> 0]
+NoTrg == [set |-> 0, exp |-> 0, log |-> Nil]
+Radices == <<Len(MemberOpts), Len(ActOpts)>> \o [i \in 1..UseNI |-> Len(IdOpts)] \o [j \in 1..UseNT |-> Len(TrOpts)]
 RECURSIVE ProdUpTo(_)
 ProdUpTo(p) == IF p = 0 THEN 1 ELSE Radices[p] * ProdUpTo(p - 1)
 UniCount == ProdUpTo(Len(Radices))
 Digit(k, p) == ((k % UniCount) \div ProdUpTo(p - 1)) % Radices[p]
-UniAt(k) == [member |-> MemberOpts[Digit(k, 1) + 1], act |-> ActOpts[Digit(k, 2) + 1],
-             ids |-> [i \in 1..NI |-> IdOpts[Digit(k, 2 + i) + 1]],
-             trg |-> [j \in 1..NT |-> TrOpts[Digit(k, 2 + NI + j) + 1]]]
+UniAt(k) == [member |-> MemberOpts[Digit(k, 1) + 1], act |-> ActOpts[Digit(k, 2) + 1], gen |-> MaxGen,
+             ids |-> [i \in 1..NI |-> IF i <= UseNI THEN IdOpts[Digit(k, 2 + i) + 1] ELSE NoId],
+             trg |-> [j \in 1..NT |-> IF j <= UseNT THEN TrOpts[Digit(k, 2 + UseNI + j) + 1] ELSE NoTrg]]
 
-(* hand-written scenarios (3 identities, 2 triggers; truncated to NI / NT):
+(* hand-written scenarios (3 identities, 2 triggers; truncated to UseNI / UseNT):
    1  ts order opposite to byte order inside set 1, second set active later; one log one block after
       expiry (must not fire), one log exactly at the expiry block (fires)
    2  not a member of set 2; two identities with equal timestamps; log before expiry / at the last block
@@ -67,15 +70,43 @@ Designed == <<
    ids |-> <<[set |-> 1, ts |-> 1], [set |-> 2, ts |-> 1], [set |-> 1, ts |-> 2]>>,
    trg |-> <<[set |-> 1, exp |-> 2, log |-> 1], [set |-> 2, exp |-> 2, log |-> 2]>>] >>
 
-Cut(d) == [d EXCEPT !.ids = SubSeq(d.ids, 1, NI), !.trg = SubSeq(d.trg, 1, NT)]
-DesignedUnis == [k \in DOMAIN DesignedIdx |-> Cut(Designed[DesignedIdx[k]])]
+(* targeted scenarios, used as they are (4 identity slots, 2 trigger slots):
+   1  fired triggers of BOTH keyper sets pending in the same block, member of both: each emitted
+      trigger must carry the identities of its own set only
+   2  the same, but this keyper is not in set 2
+   3  four identities of ONE set with equal timestamps (the query order among them is unspecified:
+      the driver permutes it) - sorting of 3 and 4 identities from every arrival order
+   4  four identities of one set whose timestamp order is (largest, smallest, third, second) *)
+Targeted == <<
+  [member |-> <<TRUE, TRUE>>, act |-> <<1, 2>>, gen |-> <<1, 1>>,
+   ids |-> <<NoId, NoId, NoId, NoId>>,
+   trg |-> <<[set |-> 1, exp |-> 3, log |-> 1], [set |-> 2, exp |-> 3, log |-> 2]>>],
+  [member |-> <<TRUE, FALSE>>, act |-> <<1, 2>>, gen |-> <<1, 1>>,
+   ids |-> <<NoId, NoId, NoId, NoId>>,
+   trg |-> <<[set |-> 2, exp |-> 2, log |-> 1], [set |-> 1, exp |-> 3, log |-> 1]>>],
+  [member |-> <<TRUE, TRUE>>, act |-> <<1, 2>>, gen |-> <<1, 0>>,
+   ids |-> <<[set |-> 1, ts |-> 1], [set |-> 1, ts |-> 1], [set |-> 1, ts |-> 1], [set |-> 1, ts |-> 1]>>,
+   trg |-> <<NoTrg, NoTrg>>],
+  [member |-> <<TRUE, TRUE>>, act |-> <<1, 2>>, gen |-> <<1, 0>>,
+   ids |-> <<[set |-> 1, ts |-> 1], [set |-> 1, ts |-> 3], [set |-> 1, ts |-> 2], [set |-> 1, ts |-> 0]>>,
+   trg |-> <<NoTrg, NoTrg>>] >>
+
+(* designed universes 1..5 use the first UseNI / UseNT of their slots and MaxGen; 6.. are Targeted *)
+Cut(d) == [member |-> d.member, act |-> d.act, gen |-> MaxGen,
+           ids |-> [i \in 1..NI |-> IF i <= UseNI /\ i <= Len(d.ids) THEN d.ids[i] ELSE NoId],
+           trg |-> [j \in 1..NT |-> IF j <= UseNT /\ j <= Len(d.trg) THEN d.trg[j] ELSE NoTrg]]
+Fit(d) == [d EXCEPT !.ids = [i \in 1..NI |-> IF i <= Len(d.ids) THEN d.ids[i] ELSE NoId],
+                    !.trg = [j \in 1..NT |-> IF j <= Len(d.trg) THEN d.trg[j] ELSE NoTrg]]
+DesignedUnis == [k \in DOMAIN DesignedIdx |->
+                   IF DesignedIdx[k] <= Len(Designed) THEN Cut(Designed[DesignedIdx[k]])
+                   ELSE Fit(Targeted[DesignedIdx[k] - Len(Designed)])]
 
 (* PickOne: instead of all seeded universes use only the first one that makes the set of universes
    "rich": some universe has a trigger of a set we belong to whose log comes after the expiry block
    (and the trigger is still unexpired at block 1), and some universe has one whose log is in time. *)
-LateLog(v) == \E j \in DOMAIN v.trg : /\ v.trg[j].log # Nil /\ v.trg[j].log > v.trg[j].exp
+LateLog(v) == \E j \in DOMAIN v.trg : /\ v.trg[j].set # 0 /\ v.trg[j].log # Nil /\ v.trg[j].log > v.trg[j].exp
                                       /\ v.trg[j].exp >= 1 /\ v.member[v.trg[j].set]
-InTimeLog(v) == \E j \in DOMAIN v.trg : /\ v.trg[j].log >= 1 /\ v.trg[j].log <= v.trg[j].exp /\ v.member[v.trg[j].set]
+InTimeLog(v) == \E j \in DOMAIN v.trg : /\ v.trg[j].set # 0 /\ v.trg[j].log >= 1 /\ v.trg[j].log <= v.trg[j].exp /\ v.member[v.trg[j].set]
 Rich(vs) == (\E v \in vs : LateLog(v)) /\ (\E v \in vs : InTimeLog(v))
 RichWith(k) == Rich(SeqToSet(DesignedUnis) \cup {UniAt(UniIdx[k])})
 Picked == IF \E k \in DOMAIN UniIdx : RichWith(k)
@@ -101,6 +132,7 @@ Alphabet ==
 ASSUME PrintT(<<"ALPHABET", ToJson(Alphabet)>>)
 ASSUME PrintT(<<"UNIS", ToJson(Universes)>>)
 ASSUME PrintT(<<"CONST", ToJson([ni |-> NI, nt |-> NT, unicount |-> UniCount])>>)
+ASSUME NI >= 4 /\ NT >= 2 /\ UseNI <= NI /\ UseNT <= NT
 
 Init == /\ ui \in DOMAIN Universes
         /\ st = InitSt /\ gh = GhostInit /\ out = <<>> /\ last = 0 /\ hist = <<ui>>
